@@ -165,12 +165,13 @@ func init() {
 							return
 						}
 						construct := name + "#" + typeName(x.Type()) + "(" + abbr(Desc(x.X), 1) + ")"
-						if ok, how := upperBounded(in.Block(), x.X); ok {
+						ok, how := rangeChecked(in.Block(), x.X, x.Type())
+						if ok {
 							r.Ok("C19.narrowing", construct, in.Pos(), how)
 							return
 						}
 						r.Fail("C19.narrowing", construct, in.Pos(),
-							fmt.Sprintf("a %d-bit decoded value is truncated to %d bits without a range check: out-of-range records decode silently to a different value", sb, db),
+							fmt.Sprintf("a %d-bit decoded value is truncated to %d bits without a sufficient range check (%s): out-of-range records decode silently to a different value", sb, db, how),
 							[]string{"upper-bound check (e.g. validateMemberIndex) dominating the conversion"}, nil)
 					case *ssa.Slice:
 						// fixed-position slicing of decoded byte strings
